@@ -20,7 +20,7 @@ Termination of the `while` loop: every pass halves the bracket, so it ends after
 Separable objective `Σ cᵢ/xᵢ` (`sqrt` under `SqrtOK`): the un-clipped update is `sqrt(cᵢ/λ)` whatever the current design is
 (`oc_separable_update`), and the updated design whose volume meets the target minimises `Σ cᵢ/xᵢ` over every design of the
 move-limited box with at most that volume (`oc_separable_optimal`): where the move limits do not bind this is the analytic
-optimum, reached in one step.
+optimum, reached in one step, and it is a fixed point of the update (`oc_separable_fixed_point`).
 NOT proved (`_partial` in the sense of DESIGN §6): that a run with binding move limits reaches the analytic optimum in finitely
 many iterations, and the effect of the bisection tolerance on it (volume met only to `C·l1l2tol`); observed by the harness oracle.
 -/
@@ -367,6 +367,24 @@ theorem oc_separable_optimal (sqrt : α → α) (hs : SqrtOK sqrt) (n : Nat) (xm
   rw [sumRange_add', sumRange_add', sumRange_mul_left', sumRange_mul_left', hvol] at hsum
   have : l * sumRange n y ≤ l * maxvol := mul_le_mul_of_nonneg_left hyv hl.le
   linarith
+
+/-- **the analytic optimum is a fixed point of the update**: a positive design with `xᵢ = sqrt(cᵢ/λ)` inside `[xmin, xmax]`
+    (non-negative move limit) is reproduced by the OC update for that multiplier, so the loop stops there through its
+    step-size test -/
+theorem oc_separable_fixed_point (sqrt : α → α) (hs : SqrtOK sqrt) (xmin xmax move xval c : Nat → α) (l : α) (i : Nat)
+    (hx : 0 < xval i) (hc : 0 ≤ c i) (hl : 0 < l) (hopt : xval i = sqrt (c i / l))
+    (h1 : xmin i ≤ xval i) (h2 : xval i ≤ xmax i) (hm : 0 ≤ move i) :
+    update sqrt xmin xmax move xval (fun j => -(c j / (xval j * xval j))) l i = xval i := by
+  rw [oc_separable_update sqrt hs xmin xmax move xval c l i hx hc hl, ← hopt, clip_eq]
+  have hlo : lower xmin move xval i ≤ xval i := (lower_le xmin move xval i h1 hm).2.2
+  have hhi : xval i ≤ upper xmax move xval i := (le_upper xmax move xval i h2 hm).2.2
+  rw [max_eq_left hlo, min_eq_left hhi]
+
+/-- non-vacuity of `oc_separable_fixed_point` over ℝ: `c = 4`, `λ = 1`, `x = 2 = sqrt(4/1)`, bounds `[1, 3]` -/
+example : (2:ℝ) = Real.sqrt (4 / 1) ∧ (1:ℝ) ≤ 2 ∧ (2:ℝ) ≤ 3 := by
+  refine ⟨?_, by norm_num, by norm_num⟩
+  rw [show (4:ℝ) / 1 = 2 * 2 by norm_num]
+  exact (Real.sqrt_mul_self (by norm_num)).symm
 
 /-- non-vacuity over ℝ: two variables, `c = (1, 4)`, current design `(1, 1)`, bounds `[1/10, 10]`, no binding move limit,
     `λ = 1`: the update is `(1, 2)` with volume 3, and it beats the feasible design `(3/2, 3/2)`: `1/1 + 4/2 = 3 ≤ 2/3 + 8/3` -/
